@@ -43,35 +43,36 @@ Proof. exact cstep_spec. Qed.
 Print Assumptions C05_config_wrapper.
 
 (* ---- tie to the source text: the CFDivisor methods translated from /repo's CURRENT source by tools/translate_imp.py (TranslatedImpCFDivisor.v, regenerated
-   on every run; dictionaries as insertion-ordered association lists, Base/PyDict.v) refine the model functions the theorems above are about.
+   on every run; dictionaries as insertion-ordered association lists, Base/PyDict.v) refine the model functions the theorems above are about. A method ends with PyOk result, or with PyExn st: an exception that leaves the written
+   dictionaries in state st.
    rep_graph gg g / rep_div n dd D: the dictionaries gg, dd hold exactly the positive multiplicities of g / the chips of D ---- *)
 Theorem C05_source_lending_move : forall g, wfb g = true -> forall gg, rep_graph gg g -> forall dd D v, rep_div (nv g) dd D ->
-  match CFDivisor_lending_move gg dd v with None => inb g v = false | Some dd' => inb g v = true /\ rep_div (nv g) dd' (lend g D v) end.
+  match CFDivisor_lending_move gg dd v with PyExn st => inb g v = false /\ st = dd | PyOk dd' => inb g v = true /\ rep_div (nv g) dd' (lend g D v) end.
 Proof. exact lending_move_refines. Qed.
 Print Assumptions C05_source_lending_move.
 Theorem C05_source_firing_move_is_lending_move : CFDivisor_firing_move = CFDivisor_lending_move.
 Proof. reflexivity. Qed.
 Print Assumptions C05_source_firing_move_is_lending_move.
 Theorem C05_source_borrowing_move : forall g, wfb g = true -> forall gg, rep_graph gg g -> forall dd D v, rep_div (nv g) dd D ->
-  match CFDivisor_borrowing_move gg dd v with None => inb g v = false | Some dd' => inb g v = true /\ rep_div (nv g) dd' (borrow g D v) end.
+  match CFDivisor_borrowing_move gg dd v with PyExn st => inb g v = false /\ st = dd | PyOk dd' => inb g v = true /\ rep_div (nv g) dd' (borrow g D v) end.
 Proof. exact borrowing_move_refines. Qed.
 Print Assumptions C05_source_borrowing_move.
 Theorem C05_source_chip_transfer : forall g dd D a b k, rep_div (nv g) dd D ->
   match CFDivisor_chip_transfer dd a b k with
-  | None => (k <=? 0) || negb (inb g a && inb g b) = true
-  | Some dd' => ((k <=? 0) || negb (inb g a && inb g b) = false) /\ rep_div (nv g) dd' (transfer g D a b k) end.
+  | PyExn st => ((k <=? 0) || negb (inb g a && inb g b) = true) /\ st = dd
+  | PyOk dd' => ((k <=? 0) || negb (inb g a && inb g b) = false) /\ rep_div (nv g) dd' (transfer g D a b k) end.
 Proof. exact chip_transfer_refines. Qed.
 Print Assumptions C05_source_chip_transfer.
 (* set_fire iterates over Python sets: `so` is ANY function returning a permutation of its argument (the unspecified iteration order) *)
 Theorem C05_source_set_fire : forall g, wfb g = true -> forall gg, rep_graph gg g -> forall dd D (so : list nat -> list nat) U, rep_div (nv g) dd D ->
   (forall s, Permutation (so s) s) ->
   match CFDivisor_set_fire gg dd so U with
-  | None => forallb (inb g) U = false
-  | Some dd' => forallb (inb g) U = true /\ rep_div (nv g) dd' (fire_set g D U) end.
+  | PyExn st => forallb (inb g) U = false /\ st = dd
+  | PyOk dd' => forallb (inb g) U = true /\ rep_div (nv g) dd' (fire_set g D U) end.
 Proof. exact set_fire_refines. Qed.
 Print Assumptions C05_source_set_fire.
 Theorem C05_source_is_effective_get_degree : forall g dd D, rep_div (nv g) dd D ->
-  CFDivisor_is_effective dd = is_effective_b g D /\ forall v, CFDivisor_get_degree dd v = if inb g v then Some (nthZ D v) else None.
+  CFDivisor_is_effective dd = is_effective_b g D /\ forall v, CFDivisor_get_degree dd v = if inb g v then PyOk (nthZ D v) else PyExn tt.
 Proof. intros g dd D H. split; [apply is_effective_refines; exact H|intros v; apply get_degree_refines; exact H]. Qed.
 Print Assumptions C05_source_is_effective_get_degree.
 (* every model state has such dictionaries: the statements above are not vacuous *)
@@ -79,9 +80,9 @@ Theorem C05_source_states_representable : forall g D, wfb g = true -> rep_graph 
 Proof. intros g D H. split; [apply rep_graph_of; exact H|apply rep_div_of]. Qed.
 Print Assumptions C05_source_states_representable.
 Example C05_source_nonvacuous : let g := [[0;2;1];[2;0;0];[1;0;0]] in
-  CFDivisor_lending_move (dict_of_graph g) (dict_of_div [1;-1;0]) 0%nat = Some (dict_of_div (lend g [1;-1;0] 0%nat)) /\
-  CFDivisor_set_fire (dict_of_graph g) (dict_of_div [1;-1;0]) (@rev nat) [1;2]%nat = Some (dict_of_div (fire_set g [1;-1;0] [1;2]%nat)) /\
-  CFDivisor_set_fire (dict_of_graph g) (dict_of_div [1;-1;0]) (@rev nat) [1;7]%nat = None.
+  CFDivisor_lending_move (dict_of_graph g) (dict_of_div [1;-1;0]) 0%nat = PyOk (dict_of_div (lend g [1;-1;0] 0%nat)) /\
+  CFDivisor_set_fire (dict_of_graph g) (dict_of_div [1;-1;0]) (@rev nat) [1;2]%nat = PyOk (dict_of_div (fire_set g [1;-1;0] [1;2]%nat)) /\
+  CFDivisor_set_fire (dict_of_graph g) (dict_of_div [1;-1;0]) (@rev nat) [1;7]%nat = PyExn (dict_of_div [1;-1;0]).
 Proof. repeat split; vm_compute; reflexivity. Qed.
 Example C05_nonvacuous : let g := [[0;2;1];[2;0;0];[1;0;0]] in
   degs (drun g (dinit g [1;-1;0]) [MLend 0; MFire [1;2]; MBorrow 5; MTransfer 2 2 3; MTransfer 0 1 4]%nat) = [-3;3;0].
